@@ -151,7 +151,7 @@ Proof. split; reflexivity. Qed.
 Print Assumptions C04_links_audit_no_other_link_write.
 
 Theorem C04_links_audit_parser_mutation_sites : parser_mutation_calls =
-  [("src/parser/alert.rs", 0); ("src/parser/autolink.rs", 5); ("src/parser/inlines.rs", 18);
+  [("src/parser/alert.rs", 0); ("src/parser/autolink.rs", 7); ("src/parser/inlines.rs", 18);
    ("src/parser/math.rs", 0); ("src/parser/mod.rs", 11); ("src/parser/multiline_block_quote.rs", 0);
    ("src/parser/shortcodes.rs", 0); ("src/parser/table.rs", 2)].
 Proof. reflexivity. Qed.
